@@ -33,6 +33,21 @@ def step (st : Worker.St) (toks : List String) : Worker.St × String :=
       if bad.isEmpty then (st, "true")
       else (st, s!"false cluster-events-after-Shutdown-led-to-executions-for-objects-{showStrs bad}")
     | _, _ => (st, "bad-op")
+  | "oracle" :: "shutdownreturns" :: args =>
+    -- Shutdown() was requested while a queue handler was waiting for the API server: the request must get
+    -- through to the queues (and the call come back after its wait) without the API server's answer
+    match kv? "returned" args with
+    | some "true" => (st, "true")
+    | some _ => (st, "false Shutdown()-did-not-return-while-a-queue-handler-was-waiting-for-the-API-server")
+    | none => (st, "bad-op")
+  | "oracle" :: "shutdownwaits" :: args =>
+    -- workers of the queues `busy` were inside their handlers during the whole Shutdown() call: the wait for
+    -- the queues must not have ended ahead of its timeout
+    match (kv? "busy" args).bind natList?, kv? "early" args with
+    | some busy, some early =>
+      if busy.isEmpty || early == "false" then (st, "true")
+      else (st, s!"false Shutdown()-returned-ahead-of-its-timeout-while-workers-were-inside-handlers-in-queues-{showNats busy}")
+    | _, _ => (st, "bad-op")
   | _ => Worker.step st toks
 
 def suite : Suite Worker.St := { init := {}, step := step }
